@@ -39,4 +39,6 @@ def obligations(tier):
                bounds={"impl": IMPLS[impl], "prefix": "put k0, put k1, iter_create 0, iter_next 0", "history_length_after_prefix": nops, "first_op_index": first,
                        "scenarios_in_obligation": nalpha ** (nops - 1), "keys": 3, "iterators": 2},
                units=UNITS, stubs=["random() constant (level 0)"]))
+    # (a PRELOAD2 family - three entries, iterator 0 on the middle one, then 3 operations - exists in the harness but is not
+    #  registered: it needs a larger unwinding bound and ~5 min per obligation; see seeded/C18-2 and DESIGN.md 9.6)
     return obs
